@@ -23,3 +23,6 @@ Check Props.C14.C14_truth : forall tr, accepts tr = true -> Chk.C14.chk_C14 tr =
 From Hannibal Require Chk.C13 Props.C13.
 Check Props.C13.C13_items_in_order_never_abandoned : forall tr, accepts tr = true -> Chk.C13.chk_C13 tr = true.
 Check Props.C13.C13_end_protocol : forall tr, accepts tr = true -> Chk.C03.chk_C03 tr = true.
+
+From Hannibal Require Chk.C11 Props.C11.
+Check Props.C11.C11_abandon_only_past_limit : forall tr, accepts tr = true -> Chk.C11.chk_C11 tr = true.
